@@ -66,7 +66,9 @@ def check_wrap(ctx, text, width, offset, indent, out, stream):
     off = indent if offset is None else offset
     for k, line in enumerate(out.split("\n")):
         limit = width - off if k == 0 else width
-        if len(line) > limit and len(line.split()) > 1:
+        # "a single unbreakable word" = one textwrap chunk behind the indent: no ASCII whitespace inside (a no-break space does not
+        # break; this is the notion wrap_width_bound is proved for)
+        if len(line) > limit and len([w for w in re.split("[\t\n\x0b\x0c\r ]+", line.strip(" ")) if w]) > 1:
             ctx.fail("wrap-width", f"line {k} has {len(line)} columns (limit {limit}) and more than one word: {line!r}",
                      {**payload, "out": out})
             return
@@ -201,6 +203,9 @@ CORPUS_WRAP = [
     # fix be75097: leading whitespace before a word that does not fit / a blank first line wider than the width
     ("   " + "x" * 30, 20, None, 0), ("     ", 4, None, 0), ("      \nfoo bar", 4, None, 0), ("  ab " + "x" * 30 + " cd", 20, None, 0),
     ("\t" + "y" * 50 + " tail words here", 30, 5, 4), ("\n\n  " + "z" * 40, 24, None, 0),
+    # non-ASCII whitespace: a word for textwrap, a separator for str.split()
+    ("aaaaaaaaaaaa\u00a0bbbbbbbbbbbbbb cc dd", 10, None, 0), ("foo \u00a0 bar baz qux quux", 9, 2, 1), ("x\u2003y:\n\u00a0z w", 6, None, 0),
+    ("first line:\nsecond \x1c third\n- item one\n- item\u3000two", 12, 3, 2),
 ]
 SMALL_ALPHA = "a \n:-1."
 SMALL_CONFIGS = ((4, None, 0), (6, 2, 0), (6, None, 1), (5, 0, 2))
@@ -353,7 +358,8 @@ def replay(ctx, payload):
 CLAIM = dict(
     text="Lean 4 proof, for EVERY comment text, width, offset and indent, that the model of gapic.utils.lines.wrap keeps the words "
          "(str.split()) of the text exactly and in order (wrap_words_preserved: full strength, no hypothesis on the text) and "
-         "raises nothing when 0 < width and offset < width (wrap_never_raises); the colon rule's regex, extracted from the source "
+         "raises nothing when 0 < width and offset < width (wrap_never_raises), and that every line of the result fits the width or is a single "
+         "unbreakable word (wrap_width_bound); the colon rule's regex, extracted from the source "
          "and run by the regex-engine model, is proved equal to a plain function (wrapColon_regex_is_colonSub); textwrap.fill keeps "
          "the words at string level (textwrap_fill_words_preserved) and respects the width at chunk level (textwrap_width_bound). "
          "Lean 4 proof for ALL texts that fix_whitespace (the composition of the three re.sub calls with the regexes extracted "
@@ -366,8 +372,9 @@ CLAIM = dict(
               "regex-engine soundness + per-pattern inversion) over T1-translated regexes + T2 differential of the executable models",
     design="7.20",
     note="Proved for all inputs: wrap_words_preserved, wrap_never_raises, wrapColon_regex_is_colonSub, textwrap_fill_words_preserved, "
-         "fix_only_removes_whitespace, fix_ends_one_newline, textwrap_words_preserved and textwrap_width_bound (the _wrap_chunks core, any "
-         "width/indents/chunks), rst_output_doc_safe (the tail of rst(), both branches). NOT proved, decided by T2 + oracle only: "
-         "idempotence and AST invariance of fix_whitespace (2.4 million small inputs tried by hand: idempotent), the width bound of "
-         "lines.wrap as a whole at string level. The pandoc branch of rst() is not exercised (pandoc absent).",
+         "wrap_width_bound (every line of the result fits the width - the first line width - offset - or is one unbreakable word behind its "
+         "indent; string level), fix_only_removes_whitespace, fix_ends_one_newline, textwrap_words_preserved and textwrap_width_bound (the "
+         "_wrap_chunks core, any width/indents/chunks), rst_output_doc_safe (the tail of rst(), both branches). NOT proved, decided by T2 + "
+         "oracle only: idempotence and AST invariance of fix_whitespace (2.4 million small inputs tried by hand: idempotent). The pandoc "
+         "branch of rst() is not exercised (pandoc absent).",
 )
